@@ -175,7 +175,7 @@ def run(ctx, canary=False):
         e = exp.get(i)
         if e is None:
             continue
-        use = styles if (thorough or i <= 12) else [styles[0]] + rng.sample(styles[1:], 3)
+        use = styles if (thorough or i <= 3) else ([styles[0]] + rng.sample(styles[1:], 5) if i <= 12 else [styles[0]] + rng.sample(styles[1:], 3))
         for k, st in enumerate(use):
             # noise scaled by s: loss, gradient and smoothness constant scale by exactly 1/s^2 (L1 by 1/s); every third run is the
             # last of three calls on one warm-started engine
